@@ -99,6 +99,10 @@ class C05:
             builds.append(base_cfg(exe="build", nargs=3, writable=wr, pre=pre, store=store_in,
                                    build={"error": err, "launch": la, "store": st, "build_sboms": bs, "launch_sboms": ls}))
         cases += builds if tier == "thorough" else rng.sample(builds, 450)
+        # a provided but EMPTY store (Store::default()): it is written like any other -- that is how a buildpack clears it
+        for la, wr, pre, store_in in itertools.product([False, True], [True, False], [True, False], ["missing", "ok"]):
+            cases.append(base_cfg(exe="build", nargs=3, writable=wr, pre=pre, store=store_in,
+                                  build={"error": False, "launch": la, "store": "empty", "build_sboms": [], "launch_sboms": ["cdx"]}))
         return cases
 
     def run_impl(self, cases, workdir):
